@@ -1,7 +1,7 @@
 (* JsonOf.v: serde_json::to_value on the data-model items a value serialises as (hand model of
    serde_json's value serializer), and the restrictions under which C17 compares the dynamic
    codec with the static one. *)
-From PV Require Import Base MachineInt Utf8 DataModel WireFormat Schema SchemaDecl SchemaConv Conform Dyn.
+From PV Require Import Base MachineInt Utf8 DataModel WireFormat Schema SchemaDecl SchemaConv Conform Dyn DynSizeDefs.
 Open Scope N_scope.
 
 Section JsonOf.
@@ -101,29 +101,33 @@ Fixpoint small_seqs (v : nvalue) : bool :=
 (* JSON values as serde_json holds them: strings are valid UTF-8 byte strings, object keys are
    strictly ascending, arrays of moderate length (beyond that: known finding F9; objects need no
    such bound, every entry of a map starts with its key's length prefix) *)
-Fixpoint json_wf (j : json) : bool :=
+Fixpoint json_wf_g (lim : bool) (j : json) : bool :=
   match j with
   | JFloat b => (b <? 2 ^ 64) && f64_finite b
   | JStr bs => bytes_okb bs && utf8_valid bs && (N.of_nat (length bs) <? 2 ^ 64)
-  | JArr l => forallb json_wf l && (N.of_nat (length l) <=? 65536)
+  | JArr l => forallb (json_wf_g lim) l && (if lim then N.of_nat (length l) <=? 65536 else N.of_nat (length l) <? 2 ^ 64)
   | JObj kvs =>
-    forallb (fun kv => bytes_okb (fst kv) && utf8_valid (fst kv) && (N.of_nat (length (fst kv)) <? 2 ^ 64) && json_wf (snd kv)) kvs
+    forallb (fun kv => bytes_okb (fst kv) && utf8_valid (fst kv) && (N.of_nat (length (fst kv)) <? 2 ^ 64) && json_wf_g lim (snd kv)) kvs
     && keys_ascending (map fst kvs) && (N.of_nat (length kvs) <? 2 ^ 64)
   | _ => true
   end.
+(* lim = true: arrays of at most 65536 elements (any schema); lim = false: arrays of any length,
+   for schemas whose sequence elements occupy at least one byte (reenc_scope_g false) *)
+Definition json_wf := json_wf_g true.
 
 (* schemas outside the known classes F7 (nullable payload directly inside Option) and F8
    (duplicate field names in one struct body) *)
 Definition body_ok (ok : schema -> bool) (k : dkind) (fs : list (str * schema)) : bool :=
   forallb (fun f => ok (snd f)) fs && match k with DStruct => names_distinct (map fst fs) | _ => true end.
-Fixpoint reenc_scope (s : schema) : bool :=
+Fixpoint reenc_scope_g (lim : bool) (s : schema) : bool :=
   match s with
   | SPrim _ => true
-  | SOption t => negb (nullable t) && reenc_scope t
-  | SSeq t => reenc_scope t
-  | STuple ts => forallb reenc_scope ts
-  | SMap k v => reenc_scope v
-  | SStruct _ k fs => body_ok reenc_scope k fs
-  | SEnum _ vs => forallb (fun v => body_ok reenc_scope (snd (fst v)) (snd v)) vs && (N.of_nat (length vs) <? 2 ^ 64)
+  | SOption t => negb (nullable t) && reenc_scope_g lim t
+  | SSeq t => reenc_scope_g lim t && (lim || (1 <=? dmin t))
+  | STuple ts => forallb (reenc_scope_g lim) ts
+  | SMap k v => reenc_scope_g lim v
+  | SStruct _ k fs => body_ok (reenc_scope_g lim) k fs
+  | SEnum _ vs => forallb (fun v => body_ok (reenc_scope_g lim) (snd (fst v)) (snd v)) vs && (N.of_nat (length vs) <? 2 ^ 64)
   end.
+Definition reenc_scope := reenc_scope_g true.
 
